@@ -18,6 +18,25 @@ def _worker(args):
 def undelivered_phase(ctx, cr, fails, dist):
     """Replies that cannot be delivered: only an undelivered SUCCESS gives the record back; an undelivered 'replayed'
     (or expired / unauthorized ...) reply must leave the record of the earlier successful decode in place."""
+    # a retry-flagged request for an ALREADY decoded credential (allowed to replay: the documented exception) whose reply cannot
+    # be delivered must not take away the record of the earlier, delivered decode: first-attempt requests stay 'replayed'
+    for rt in (1, 5):
+        cr.set_clock(1500000000)
+        r, _ = rig.encode(cr.d.sock, uid=11, gid=12, data=b"retry-flagged undelivered %d" % rt)
+        cred = r["data"]
+        d0, m0, diff0 = cr.decode_both(cred, uid=5, gid=1)
+        for _ in range(2):
+            rig.decode_undeliverable(cr.d.sock, cred, uid=6, gid=1, retry=rt)
+        d, st = rig.decode(cr.d.sock, cred, uid=7, gid=1)
+        ctx.count(("undelivered", "retry-flagged", rt))
+        dist["undelivered"] = dist.get("undelivered", 0) + 1
+        if d0 is None or d0["error_num"] != 0:
+            fails.append({"why": "setup: first decode failed", "kind": "undelivered-retry-flagged"})
+        elif d is None or d["error_num"] != 17:
+            fails.append({"why": "a credential was successfully decoded by a first-attempt request, then presented with retry=%d by a client that "
+                                 "hung up before the reply; the next first-attempt decode gives %s, expected 17 (replayed): the record of the "
+                                 "delivered decode was taken away" % (rt, d and (d["error_num"], d["error_str"])),
+                          "cred_hex": cred.hex(), "kind": "undelivered-retry-flagged"})
     for kind in ("replayed", "unauthorized", "success-then"):
         cr.set_clock(1500000000)
         r, _ = rig.encode(cr.d.sock, uid=11, gid=12, auth_uid=(77 if kind == "unauthorized" else ANY), data=b"undelivered " + kind.encode())
